@@ -353,3 +353,12 @@ Section Spec.
     | EAllOptions => as_ee (sall_options o) ;;> Ok tt
     end.
 End Spec.
+
+(** What an observer who consumes the result sees: a value holding a deferred element failure
+    (a lazily evaluated Iter / Map whose element fails) raises it at consumption.  This is what
+    the harness compares with labrea's forced result. *)
+Definition consumed (r : res value) : res value :=
+  match r with
+  | Ok v => match deep_err v with Some c => Err c true | None => Ok v end
+  | Err c ee => Err c ee
+  end.
